@@ -35,7 +35,7 @@ COMPONENTS = {"real": ["clustering/kmeans.py (KMeans.fit, kmeansplusplus_centers
               "stub": ["multiprocessing.Pool -> sim/simpool.py (seeded pool size, chunking, completion order; pickling isolation)",
                        "np.random / random seeds (owned by the simulator)", "monitor_distances callback (environment: cancels at a seeded iteration)",
                        "reference DTW for the nearest-mean oracle: sim/models/dtw_ref.py"]}
-ASSUMPTIONS = ["bounds: k 1..5, n = k+1..12 series of length 2..8, ndim 1..2, max_it 0..5, max_dba_it 1..3",
+ASSUMPTIONS = ["bounds: k 1..5, n = k+1..12 series of length 2..8, ndim 1..2, max_it 0..5, max_dba_it 1..3, thr in {default, 1e-4, 0.05, 0.5, 2}, data amplitude in {1, 1e-3, 1e-4}",
                "empty clusters in the returned dict are allowed (with fewer distinct series than k they are unavoidable); keys must still be exactly 0..k-1",
                "nearest-mean comparison uses rel. tol 1e-9 on the reference distances; serial vs parallel comparison is exact (float bits)"]
 
@@ -62,6 +62,9 @@ def gen_history(st):
                 base.append([float(rng.below(6)) if rng.below(4) else round(rng.uniform(0, 5), 2) for _ in range(L)])
         series = [copy.deepcopy(base[i]) if i < distinct else copy.deepcopy(base[rng.below(distinct)]) for i in range(n)]
         rng.shuffle(series)
+        amp = rng.choice([1.0, 1.0, 1.0, 1e-3, 1e-4])      # low-amplitude data: the absolute convergence threshold bites early
+        if amp != 1.0:
+            series = [[[x * amp for x in p] for p in srs] if ndim else [x * amp for x in srs] for srs in series]
         data.append({"series": series, "k": k})
     nmodels = 1 + rng.below(2)
     models = []
@@ -77,6 +80,7 @@ def gen_history(st):
             opts["use_c"] = False
         init = rng.choice(["kmeanspp", "kmeanspp", "random", "kmeanspp_sample"])
         models.append({"op": "new", "model": mi, "data_k": rng.below(ndata), "max_it": rng.below(6), "max_dba_it": 1 + rng.below(3),
+                       "thr": rng.choice([None, None, 0.0001, 0.05, 0.5, 2.0]),
                        "drop_stddev": rng.choice([None, None, 1, 2, 3]), "init": init, "sample": 1 + rng.below(3), "opts": opts})
     programs = [[], []]
     for m in models:
@@ -114,6 +118,8 @@ def _mk_model(spec, k):
     from dtaidistance.clustering.kmeans import KMeans
     kw = dict(k=k, max_it=spec["max_it"], max_dba_it=spec["max_dba_it"], drop_stddev=spec["drop_stddev"], dists_options=dict(spec["opts"]),
               show_progress=False, initialize_with_kmedoids=False)
+    if spec.get("thr") is not None:
+        kw["thr"] = spec["thr"]
     if spec["init"] == "random":
         kw["initialize_with_kmeanspp"] = False
     elif spec["init"] == "kmeanspp_sample":
@@ -325,7 +331,7 @@ def shrink(h):
             out.append({"setup": s2, "ops": copy.deepcopy(h["ops"])})
     for i, op in enumerate(h["ops"]):
         if op["op"] == "new":
-            for key, val in (("drop_stddev", None), ("init", "kmeanspp"), ("max_it", 1), ("max_dba_it", 1)):
+            for key, val in (("drop_stddev", None), ("init", "kmeanspp"), ("max_it", 1), ("max_dba_it", 1), ("thr", None)):
                 if op.get(key) != val:
                     ops = copy.deepcopy(h["ops"]); ops[i][key] = val
                     out.append({"setup": copy.deepcopy(setup), "ops": ops})
